@@ -28,7 +28,8 @@ class Ref:
 
     def add(self, time, r):
         import math
-        n = int(math.floor((time - self.t0) / self.dt + 0.5))
+        pos = (time - self.t0) / self.dt + 0.5
+        n = self.nxt + self.ncols - 1 if pos == math.inf else int(math.floor(pos))      # infinitely far ahead: beyond the horizon
         n = max(self.nxt, min(n, self.nxt + self.ncols - 1))
         self.p.setdefault(n, {})
         self.p[n][r] = self.p[n].get(r, 0) + 1
@@ -74,6 +75,8 @@ def add_times(ref):
     for k in range(nc):
         ts += [('slot%d' % k, nq + k * dt), ('slot%d-' % k, nq + k * dt - 0.3 * dt), ('slot%d+' % k, nq + k * dt + 0.3 * dt)]
     ts += [('beyond1', nq + nc * dt), ('beyond3', nq + (nc + 2) * dt)]
+    # far beyond the horizon: more grid steps ahead than a 32-bit index holds, and an infinite delay
+    ts += [('beyond2^32', nq + 2.0 ** 32 * dt + 3 * dt), ('infinite', float('inf'))]
     return ts
 
 
@@ -237,7 +240,7 @@ def run(ctx):
     ctx.bounds = dict(history_length=L, pending_cap=cap, shapes=len(sh))
     ctx.rule = ('E3: explicit-state BFS on the real ArrayDelayQueue for every shape (1..2 reactions, 2..4 slots, dt in {0.25,0.5,1}, start '
                 'time in {0,2.5,-1}, constructed or re-timed; plus larger shapes (3 reactions x 5 slots, 2 x 7; thorough also 4 x 6, 3 x 9, 5 x 3) to a length 1-2 shorter); operations add(r, time) with time 2 and 0.3 slots in the past, on every '
-                'slot, 0.3 dt before/after every slot, 1 and 3 slots beyond the horizon; read-and-advance; copy; clear_copy; '
+                'slot, 0.3 dt before/after every slot, 1 and 3 slots, 2^32 slots and infinitely far beyond the horizon; read-and-advance; copy; clear_copy; '
                 'binomial_partition with every coin sequence (continuing on either part). After every transition the real queue is '
                 'drained and compared slot by slot (content and slot times) with the reference. States are merged on (pending counts '
                 'per relative slot and reaction, ring position); every shape counts as one non-trivial case.')
